@@ -1,4 +1,5 @@
 import Proofs.Delta
+import Proofs.DeltaRoot
 import Properties.C02
 /-!
 # C01 — applying `Delta(DeepDiff(t1, t2))` to `t1` reproduces `t2`
@@ -62,5 +63,87 @@ theorem C01_N_tuple_in_tuple :
       (.list [.tuple [.tuple [.int 1, .int 2], .int 0]])).root ≠ .list [.tuple [.tuple [.int 1, .int 3], .int 0]] := by
   simp [applyDelta, Gen.deltaPhases, phase, applyChange, getAt, getItem, setNewValue, withContainer, isTuple,
     isMutableContainer, postProcess, sortPaths, addPost, seqItems, setElem, castTo, replaceAt]
+
+/-! ### the root case of the round trip, end to end -/
+
+theorem leafDiff_shape (steps : List Step) (a b : PyVal) :
+    leafDiff steps a b = [] ∨ ∃ ud, leafDiff steps a b = [(.valuesChanged, { steps := steps, t1 := some a, t2 := some b, udiff := ud })] := by
+  unfold leafDiff
+  split
+  all_goals first
+    | (split
+       · exact Or.inl rfl
+       · exact Or.inr ⟨_, rfl⟩)
+    | exact Or.inl rfl
+
+theorem mutualAddRemoves_single (c : Cat) (l : Level) (hc : c = .valuesChanged ∨ c = .typeChanges) :
+    mutualAddRemoves [(c, l)] = [(c, l)] := by
+  rcases hc with rfl | rfl <;> simp [mutualAddRemoves]
+
+theorem pyEq_refl_basic (b : PyVal) (h : isBasic b = true) : pyEq b b = true := by
+  cases b <;> simp [isBasic] at h <;> simp [pyEq, numEq, numOf]
+
+/-- **Round trip for every pair of scalars** (`None`, `bool`, `int`, `float`, `str`, `bytes`; equal or not, of the
+same type or not), every ordered configuration without path restrictions, directed or not, with or
+without `always_include_values`: applying the delta built from the diff to `t1` gives a value `== t2`,
+with no error logged and nothing raised. -/
+theorem C01_scalars_roundtrip (cfg : DCfg) (hp : Diff.Plain cfg) (al : Align) (hashOf : PyVal → String) (directed always : Bool)
+    (a b : PyVal) (ha : isBasic a = true) (hb : isBasic b = true) :
+    ∃ r, applyDelta false (buildDelta directed always a b (deepDiff cfg al hashOf a b)) a = { root := r } ∧ pyEq r b = true := by
+  have hk : ∀ t, keepReported cfg t = t := keepReported_plain hp
+  have hd : (if skipSteps cfg [] then ({} : Result) else diffV cfg al hashOf [] a b) = diffV cfg al hashOf [] a b := by
+    simp [skipSteps_plain hp]
+  -- the diff of two scalars
+  have hleaf : diffV cfg al hashOf [] a b =
+      if typeName a != typeName b then ⟨[(.typeChanges, { steps := [], t1 := some a, t2 := some b })], []⟩ else ⟨leafDiff [] a b, []⟩ := by
+    cases a <;> simp [isBasic] at ha <;> simp only [diffV]
+  by_cases ht : (typeName a != typeName b) = true
+  · -- a change of type at the root
+    have hdd : deepDiff cfg al hashOf a b = ⟨[(.typeChanges, { steps := [], t1 := some a, t2 := some b })], []⟩ := by
+      unfold deepDiff
+      rw [hd, hleaf]
+      simp only [ht, if_true, hk]
+      split
+      · rfl
+      · simp only [mutualAddRemoves_single _ _ (Or.inr rfl)]
+    rw [hdd]
+    obtain ⟨r, h1, h2⟩ := roundtrip_root_type directed always a b
+    refine ⟨r, h1, ?_⟩
+    rcases h2 with rfl | h2
+    · exact pyEq_refl_basic _ hb
+    · exact h2
+  · have ht' : (typeName a != typeName b) = false := by simpa using ht
+    rcases leafDiff_shape [] a b with hl | ⟨ud, hl⟩
+    · -- nothing to report: the scalars are equal
+      have hdd : deepDiff cfg al hashOf a b = {} := by
+        unfold deepDiff
+        rw [hd, hleaf]
+        simp only [ht', Bool.false_eq_true, if_false, hl, hk]
+        split <;> simp [mutualAddRemoves] <;> rfl
+      rw [hdd]
+      have : buildDelta directed always a b {} = {} := by simp [buildDelta, groupSet]
+      rw [this, applyDelta_empty]
+      exact ⟨a, rfl, leafDiff_nil [] a b ha (by simpa using ht') hl⟩
+    · -- one change of value at the root
+      have hdd : deepDiff cfg al hashOf a b = ⟨[(.valuesChanged, { steps := [], t1 := some a, t2 := some b, udiff := ud })], []⟩ := by
+        unfold deepDiff
+        rw [hd, hleaf]
+        simp only [ht', Bool.false_eq_true, if_false, hl, hk]
+        split
+        · rfl
+        · simp only [mutualAddRemoves_single _ _ (Or.inl rfl)]
+      rw [hdd, roundtrip_root_value]
+      exact ⟨b, rfl, pyEq_refl_basic _ hb⟩
+
+/-- **Round trip whenever the whole difference is reported as one change at the root** — two values of
+different types (a list against a dict, a scalar against a container), or two dictionaries that share
+too few keys (`threshold_to_diff_deeper`) and are reported as one `values_changed`. -/
+theorem C01_root_change_roundtrip (directed always : Bool) (t1 t2 : PyVal) (r : Result)
+    (h : (∃ ud, r = ⟨[(.valuesChanged, { steps := [], t1 := some t1, t2 := some t2, udiff := ud })], []⟩) ∨
+         r = ⟨[(.typeChanges, { steps := [], t1 := some t1, t2 := some t2 })], []⟩) :
+    ∃ v, applyDelta false (buildDelta directed always t1 t2 r) t1 = { root := v } ∧ (v = t2 ∨ pyEq v t2 = true) := by
+  rcases h with ⟨ud, rfl⟩ | rfl
+  · exact ⟨t2, roundtrip_root_value directed always t1 t2 ud, Or.inl rfl⟩
+  · exact roundtrip_root_type directed always t1 t2
 
 end Delta
